@@ -227,12 +227,12 @@ def cli_case(arg):
                 done.add(lab)
             else:
                 out["ticks"] += 1
-        if finals != want:
+        # the property fixes the counts per phase, not the wording of the labels: compare in phase order
+        got_seq = [finals.get(l) for l in order]
+        want_seq = [want[l] for l in LABELS if l in want]
+        if got_seq != want_seq:
             out["viol"].append(("final-counts-differ-from-census", {"got": {k.decode(): v for k, v in finals.items()},
                                                                      "want": {k.decode(): v for k, v in want.items()}, "names": names}))
-        exp_order = [l for l in LABELS if l in want]
-        if order != exp_order:
-            out["viol"].append(("phase-order", {"got": [x.decode() for x in order]}))
         junk = [x for x in rest if x.strip() and not x.startswith(b"References (included")]
         if junk:
             out["viol"].append(("unparsable-stderr-with-progress", {"rest": junk[:3]}))
